@@ -232,7 +232,24 @@ func (c *c07) RunCase(r *fw.Rec, cs fw.Case) {
 	installProbe(ps)
 	done := make(chan error, 1)
 	start := time.Now()
-	go func() { done <- safely(func() error { return cp.RunContext(ctx) }) }()
+	// the context-aware entry points: Compiled.RunContext, or Script.RunContext (compiles, then runs)
+	entry := "Compiled.RunContext"
+	if rng.Intn(3) == 0 {
+		entry = "Script.RunContext"
+	}
+	r.Inc("entry:" + entry)
+	go func() {
+		done <- safely(func() error {
+			if entry == "Script.RunContext" {
+				cp2, e := s.RunContext(ctx)
+				if cp2 != nil {
+					cp = cp2
+				}
+				return e
+			}
+			return cp.RunContext(ctx)
+		})
+	}()
 	var runErr error
 	returned := true
 	select {
@@ -244,13 +261,13 @@ func (c *c07) RunCase(r *fw.Rec, cs fw.Case) {
 	removeProbe()
 	r.Eval()
 	r.Inc("script:" + sc.name)
-	desc := fmt.Sprintf("limit=%d cancel at instruction %d", limit, k)
+	desc := fmt.Sprintf("%s limit=%d cancel at instruction %d", entry, limit, k)
 	inside := pr.cancelled.Load() && k > 0 && (infinite || k <= total)
 	if inside {
 		r.Distinct(sc.name, fmt.Sprint(limit), fmt.Sprint(k))
 		r.Inc("cancel-inside-run")
 	}
-	detail := map[string]interface{}{"script": sc.src, "family": sc.name, "limit": limit, "cancel_at_instruction": k, "instructions_dispatched": pr.count,
+	detail := map[string]interface{}{"script": sc.src, "family": sc.name, "entry_point": entry, "limit": limit, "cancel_at_instruction": k, "instructions_dispatched": pr.count,
 		"instructions_after_abort_flag": pr.afterAbort, "instructions_between_cancel_and_flag": pr.sinceCancel, "returned_error": fmt.Sprint(runErr), "wall_ms": elapsed.Milliseconds()}
 	if !returned {
 		r.Violate("no-return:"+sc.name, "RunContext did not return within 60 s of a cancellation ("+desc+")", detail)
@@ -316,6 +333,13 @@ func (c *c07) RunCase(r *fw.Rec, cs fw.Case) {
 	}
 	// (4) the same Compiled runs again with correct results
 	n2 := int64(pick(rng, []int{0, 1, 7, 100}))
+	if rng.Intn(2) == 0 {
+		// a rejected Set in between must not disturb the object either
+		if e := cp.Set("no_such_variable", 1); e == nil {
+			r.Violate("set-undeclared-accepted", "Set accepted an undeclared name", detail)
+			return
+		}
+	}
 	if e := cp.Set("limit", n2); e != nil {
 		r.Violate("set-after-cancel", "Set failed after a cancelled run: "+e.Error(), detail)
 		return
@@ -407,7 +431,7 @@ func (c *c07) vmReuse(r *fw.Rec, rng *rand.Rand) {
 }
 
 func (c *c07) Finish(m *fw.Merged, tier string) {
-	for _, k := range []string{"cancel-inside-run", "result:ctx.Err", "result:own(nil)", "result:own(error)", "reruns-checked", "vm-reuse"} {
+	for _, k := range []string{"entry:Script.RunContext", "entry:Compiled.RunContext", "cancel-inside-run", "result:ctx.Err", "result:own(nil)", "result:own(error)", "reruns-checked", "vm-reuse"} {
 		if m.Counters[k] == 0 {
 			m.Fail("never observed: " + k)
 		}
